@@ -164,6 +164,33 @@ Theorem C13_run_consistent :
 Proof. exact: run_consistent. Qed.
 Print Assumptions C13_run_consistent.
 
+(* the documented default rates are admissible (c1, cmu >= 0, c1 + cmu <= 1, 0 <= cc <= 2, weights >= 0),
+   for every dimension n >= 1, every mu >= 1 and the three weight schemes ... *)
+Theorem C13_default_rates_admissible :
+  forall (R : rcfType) (n mu : nat) (ln : R -> R),
+    (forall x y : R, 0 < x -> x < y -> ln x < ln y) -> (0 < mu)%N -> (0 < n)%N ->
+    forall s : scheme,
+    let P := default_params n mu ln s in
+    rates_ok P /\ p_ccov1 P + p_ccovmu P <= 1.
+Proof. exact: default_rates_admissible. Qed.
+Print Assumptions C13_default_rates_admissible.
+
+(* ... so a strategy constructed with the defaults from a symmetric positive semi-definite cmatrix
+   (or the identity) is consistent after every sequence of updates *)
+Theorem C13_default_run_consistent :
+  forall (R : rcfType) (n mu : nat) (exp ln : R -> R) (eigh : 'M_n -> 'rV_n * 'M_n)
+         (argsort : 'rV_n -> 'S_n),
+    (forall x y : R, 0 < x -> x < y -> ln x < ln y) -> (0 < mu)%N -> (0 < n)%N ->
+    forall (s : scheme) (centroid : 'rV_n) (sigma : R) (cmatrix : option 'M_n) (Xs : seq 'M_(mu, n)),
+    (forall x, 0 < exp x) -> 0 < sigma ->
+    let C0 := if cmatrix is Some C0 then C0 else 1%:M in
+    C0^T = C0 -> psd C0 ->
+    (forall C : 'M_n, C^T = C -> psd C -> eigh_ok eigh C) ->
+    let Pst := init mu ln eigh argsort centroid sigma cmatrix (mkKargs s None None None None None) in
+    consistent (run exp eigh argsort Pst.1 Pst.2 Xs).
+Proof. exact: default_run_consistent. Qed.
+Print Assumptions C13_default_run_consistent.
+
 (* diagD stays strictly positive (so 1/diagD of the next update is defined) when c1 + cmu < 1 *)
 Theorem C13_update_diagD_pos :
   forall (R : rcfType) (n mu : nat) (exp : R -> R) (eigh : 'M_n -> 'rV_n * 'M_n)
